@@ -468,6 +468,74 @@ def ob_threaded(run, mir, rp):
         ob.detail += f"; foreign accumulators: {sorted(set(bad))[:4]}"
 
 
+USER_IMPORTS = [(None, ["math"], []), (None, ["numpy"], ["np"]), (None, ["json", "os"], ["opsys"]), (None, ["json", "os"], ["j", "opsys"]),
+                ("typing", ["Optional", "Union"], []), ("abc", ["ABC"], ["Base"]), ("collections", ["OrderedDict", "defaultdict"], ["dd"]),
+                ("a", ["b", "c", "d"], ["e", "f"]), ("a", ["b", "c"], ["d", "e"])]
+
+
+def import_line(frm, names, aliases):
+    return (f"from {frm} " if frm else "") + "import " + ", ".join(names) + (" as " + ", ".join(aliases) if aliases else "")
+
+
+def ob_user_imports(run, mir, rp):
+    ob = run.ob("user-imports-reproduced", "E2+text", "to_py, the Core::Import arm, every MIR path: the text is `[from M ]import <names>[ as <aliases>]` - "
+                "the `from` part exactly when there is a module, the `as` part exactly when there are aliases, however many - so the user's import line comes "
+                "out as written (decided on the printer's templates for every module / 1-3 names / 0-2 aliases combination; the real pipeline is replayed)",
+                ["to_py (Import, Id)"])
+    import printkern
+
+    def replay(model):
+        src = "\n".join(import_line(*u) for u in USER_IMPORTS) + "\nprint(1)"
+        bad = []
+        for annotate in (False, True):
+            r = rp.transpile(src, annotate=annotate)
+            if r[0] != "OK":
+                bad.append(("pipeline", r[1][:200]))
+                continue
+            lines = r[1].split("\n")
+            for u in USER_IMPORTS:
+                if import_line(*u) not in lines:
+                    bad.append((import_line(*u), [ln for ln in lines if "import" in ln and u[1][0] in ln][:1]))
+        if bad:
+            return {"reproduced": True, "role": "user-import:" + ("aliases-dropped" if any(" as " in b[0] for b in bad) else "line-changed"),
+                    "detail": f"import line {bad[0][0]!r} of the source comes out as {bad[0][1]}", "failing": [b[0] for b in bad][:6]}
+        return {"reproduced": False, "detail": f"all {len(USER_IMPORTS)} import lines are reproduced verbatim, annotate on and off"}
+    try:
+        pm = printkern.PrinterModel(run, mir, ["Import", "Id"])
+        I = lambda n: {"k": "Id", "lit": n}
+        mism = []
+        if pm.unknown:
+            mism.append(("arm", f"conditions or pieces outside the documented text model: {pm.unknown}"))
+        else:
+            for frm, names, aliases in USER_IMPORTS:
+                t = {"k": "Import", "from": I(frm) if frm else None, "import": [I(n) for n in names], "alias": [I(a) for a in aliases]}
+                try:
+                    text = pm.render(t, 0)
+                except Unsupported as e:
+                    mism.append((import_line(frm, names, aliases), f"model: {e}"))
+                    continue
+                run.paths += 1
+                if text != import_line(frm, names, aliases):
+                    mism.append((import_line(frm, names, aliases), text))
+        ob.queries += len(USER_IMPORTS)
+        ob.reach = "sat"
+        if mism:
+            rep = replay({})
+            if rep.get("reproduced"):
+                ob.violated(rep["role"], {"template_mismatches": [list(map(str, m_)) for m_ in mism[:4]]}, rep, rep["detail"])
+            else:
+                ob.inconclusive(f"the printer's Import templates differ from the documented text ({mism[:2]}) but the replayed import lines come out unchanged")
+            return
+        rep = replay({})
+        run.validated += 2 * len(USER_IMPORTS)
+        if rep.get("reproduced"):
+            ob.inconclusive(f"the real pipeline changes user imports although the printer arm is as specified: {rep['detail']}")
+        else:
+            ob.discharged(f"{pm.paths} MIR paths of the Import / Id arms; {len(USER_IMPORTS)} combinations rendered from the templates equal the source line", 0, pm.paths)
+    except Unsupported as e:
+        ob.inconclusive(str(e))
+
+
 def run(run):
     mir = e2.load_mir(run)
     rp = common.Replay()
@@ -476,7 +544,7 @@ def run(run):
                "outside: free-name analysis of whole outputs; NewType / ABC in convert_class (HashMap re-ordering loops)")
     run.trusted += ["rustc nightly MIR dump", "mirsym MIR semantics", "z3", "python3 ast (replay)"]
     run.bounds = {"accumulator_entries": 2}
-    for f in (ob_pairing, ob_sqrt_abc, ob_add_import, ob_add_from_import, ob_class_imports, ob_prepend, ob_threaded):
+    for f in (ob_pairing, ob_sqrt_abc, ob_add_import, ob_add_from_import, ob_class_imports, ob_prepend, ob_threaded, ob_user_imports):
         try:
             f(run, mir, rp)
         except Unsupported as e:
